@@ -20,7 +20,10 @@ What the rewrite changes (complete list; everything else is executed by CPython)
     symbolic iteration, loop_back (assert invariant + variant, end of path);
     ``continue`` becomes loop_back;  ``for`` over a concrete sequence of concrete
     length that the unit marks ``unroll`` is left native;
-  * ``await e`` -> ``await __vc.suspend(e, site)``.
+  * ``await e`` -> ``await __vc.suspend(e, site)``;
+  * every arm of every ``if`` (an absent ``else`` included) starts with ``__vc.mark("<line>T|F")``: a record of
+    which arms of the real text were reached on a feasible explored path (reported in the evidence; no effect on
+    the values computed).
 """
 from __future__ import annotations
 
@@ -63,6 +66,7 @@ class FnInfo:
         self.awaits: list[dict] = []
         self.dropped: list[str] = []
         self.is_async = False
+        self.arms: list[str] = []  # "<lineno>T" / "<lineno>F" for every `if` of the function (line numbers of the file)
 
 
 def find_function(tree: ast.Module, qualname: str):
@@ -293,6 +297,15 @@ class Rewriter(ast.NodeTransformer):
 
     def visit_JoinedStr(self, node):
         self.generic_visit(node)
+        return node
+
+    # -- branch arms (reachability record, no semantic change) -------------------
+    def visit_If(self, node):
+        node = self.generic_visit(node)
+        t, f = f"{node.lineno}T", f"{node.lineno}F"
+        self.info.arms += [t, f]
+        node.body = [ast.Expr(value=self.vc("mark", ast.Constant(value=t)))] + list(node.body)
+        node.orelse = [ast.Expr(value=self.vc("mark", ast.Constant(value=f)))] + list(node.orelse)
         return node
 
     # -- loops ----------------------------------------------------------------
